@@ -2,7 +2,7 @@
    name.  This is what is extracted; the correspondence harness calls these
    and nothing else. *)
 From AK Require Import Base.Prelude Base.Sx Bytes.Text Bytes.FabHeader Bytes.BinFile
-  Reader.Select Reader.BoxRead Reader.Level Plotfile.TextHeader Taste.Taste Writers.Colander Writers.Combine
+  Reader.Select Reader.BoxRead Reader.Level Plotfile.TextHeader Taste.Taste Writers.Colander Writers.Combine Writers.Chef
   Array.Paint Mandoline.Plate Whip.Whip Pestle.Pestle Point.PointQuery.
 
 Definition as_Zs := as_list as_Z.
@@ -363,6 +363,20 @@ Definition e_combine (s : sx) : sx :=
   | _ => bad_request
   end.
 
+(* ---- C11: chef (user recipe on the plotfile data) ----
+   request: (keep outnames table disk), table = list of (level lo hi (component bytes ...)) *)
+Definition e_chef (s : sx) : sx :=
+  match s with
+  | SL [keep; names; tbl; d] =>
+      req (do keep <- as_Zs keep; do names <- as_Bs names;
+           do tbl <- as_list (fun x => match x with
+                                       | SL [lv; lo; hi; comps] => do lv <- as_nat lv; do lo <- as_Zs lo; do hi <- as_Zs hi; do c <- as_Bs comps; Some (lv, lo, hi, c)
+                                       | _ => None end) tbl;
+           do d <- dec_pdisk d; Some (keep, names, tbl, d))
+          (fun '(keep, names, tbl, d) => of_result enc_pdisk (chef (table_recipe tbl) keep names d))
+  | _ => bad_request
+  end.
+
 Definition entries : list (string * (sx -> sx)) :=
   [ ("getitem", e_getitem);
     ("iter_all", e_iter_all);
@@ -384,7 +398,8 @@ Definition entries : list (string * (sx -> sx)) :=
     ("whip", e_whip);
     ("pestle", e_pestle);
     ("point", e_point);
-    ("combine", e_combine)
+    ("combine", e_combine);
+    ("chef", e_chef)
   ]%string.
 
 Fixpoint find_entry (name : string) (l : list (string * (sx -> sx))) : option (sx -> sx) :=
